@@ -118,7 +118,7 @@ def active_regions(src, macros):
     return act
 
 
-def find_function_defs(src, masked, qualname):
+def find_function_defs(src, masked, qualname, depth_ok=(0,)):
     """all definitions `... qualname ( params ) [const] { body }` at file scope.
     returns list of dicts(start, sig_end, body_open, body_close, params, head)"""
     res = []
@@ -142,7 +142,7 @@ def find_function_defs(src, masked, qualname):
             s = masked.find('\n', s) + 1
         # must be at brace depth 0 w.r.t. file (not a call inside a body)
         depth = masked[:s].count('{') - masked[:s].count('}')
-        if depth != 0:
+        if depth not in depth_ok:
             continue
         head = src[s:m.start()]
         # skip leading whitespace
@@ -217,11 +217,14 @@ class Filter:
                 raise ExtractError('E-config: expected `#define %s %d` in goldilocks_base_field.hpp' % (k, v))
         self.note('E-config', 'goldilocks_base_field.hpp', len(self.MACROS), 0, 0, 'USE_MONTGOMERY==0, GOLDILOCKS_DEBUG==0 confirmed')
 
-    def drop_function(self, fn, qualname, ptypes=None, expect=1, rule='E-drop', keep_decl=False):
-        """remove definition(s) of qualname (optionally only the overload with the given param types)"""
+    def drop_function(self, fn, qualname, ptypes=None, expect=1, rule='E-drop', keep_decl=False, in_class=False):
+        """remove definition(s) of qualname (optionally only the overload with the given param types);
+        in_class: the definition is an inline member inside a class body (brace depth 1), replaced by its declaration"""
         src = self.files[fn]
         masked = mask_noncode(src)
-        defs = find_function_defs(src, masked, qualname)
+        defs = find_function_defs(src, masked, qualname, depth_ok=(1,) if in_class else (0,))
+        if in_class:
+            keep_decl = True
         if ptypes is not None:
             defs = [d for d in defs if param_types(d['params']) == ptypes]
         if len(defs) != expect:
@@ -236,7 +239,7 @@ class Filter:
             text = src[d['start']:end]
             repl = '/* %s: definition of %s removed */' % (rule, qualname)
             if keep_decl:
-                head = re.sub(r'\binline\b', '', d['head'])
+                head = d['head'] if in_class else re.sub(r'\binline\b', '', d['head'])
                 repl += ' ' + head + qualname + '(' + d['params'] + ');'
             repl += '\n' * text.count('\n')
             src = src[:d['start']] + repl + src[end:]
@@ -244,10 +247,10 @@ class Filter:
         self.files[fn] = src
         self.note(rule, fn, len(defs), removed, 0, '%s(%s)' % (qualname, ','.join(ptypes) if ptypes is not None else '*'))
 
-    def get_function(self, fn, qualname, ptypes=None):
+    def get_function(self, fn, qualname, ptypes=None, in_class=False):
         src = self.files[fn]
         masked = mask_noncode(src)
-        defs = find_function_defs(src, masked, qualname)
+        defs = find_function_defs(src, masked, qualname, depth_ok=(1,) if in_class else (0,))
         if ptypes is not None:
             defs = [d for d in defs if param_types(d['params']) == ptypes]
         if len(defs) != 1:
@@ -431,4 +434,19 @@ def gmp_filter(repo_src, dst):
     f.replace_text(fn, 'E-gmp', r'mpz_class aux\(in1, radix\);', 'mpz_class aux = vf_mpz_parse(in1, radix); /* E-gmp: GMP string parse not verified */', 1)
     f.replace_text(fn, 'E-gmp', r'std::cerr << "Error: Goldilocks::toS32 accessing a non-32bit value: "[^;]*;', '/* E-gmp: diagnostic output dropped */;', 1)
     f.replace_text(fn, 'E-gmp', r'#include "goldilocks_base_field.hpp"\n', '#include "goldilocks_base_field.hpp"\nmpz_class vf_mpz_parse(const std::string &, int);\n', 1)
+    return f
+
+
+def cubic_filter(repo_src, dst, keep_batch_inverse=False):
+    """rules for units that read goldilocks_cubic_extension.hpp: std::vector / std::string helpers are dropped
+    (replaced by their in-class declarations); the scalar arithmetic is untouched."""
+    f = gmp_filter(repo_src, dst)
+    fn = 'goldilocks_cubic_extension.hpp'
+    f.drop_function(fn, 'toVector', expect=2, in_class=True)
+    f.drop_function(fn, 'toString', expect=4, in_class=True)
+    f.drop_function(fn, 'fromString', expect=1, in_class=True)
+    if not keep_batch_inverse:
+        f.drop_function(fn, 'batchInverse', expect=1, in_class=True)
+    # E-norm: a C-style cast to reference-to-array is mis-typed by CBMC's C++ front end; the equivalent pointer form is used
+    f.replace_text(fn, 'E-norm', r'\(Element &\)zero\(\)', '(*(Element *)&zero())', 1)
     return f
